@@ -70,7 +70,23 @@ def f_link_tagged(e, v):
     return getattr(e, "t", 0) % 2 == 0
 
 
+def _mk_default_filter(k):
+    # distinct function objects that share one code object and differ only in a default argument
+    # (the loop-binding idiom `lambda e, v, k=k: ...`): a cache keyed on anything coarser than the
+    # function object itself confuses them
+    def f_by_default(e, v, k=k):
+        return getattr(v, "i", None) != k
+    f_by_default.__qualname__ = f"f_by_default_{k}"
+    return f_by_default
+
+
+f_by_default_0 = _mk_default_filter(0)
+f_by_default_1 = _mk_default_filter(1)
+
+
 NB_FILTERS = {
+    "seld0": f_by_default_0,
+    "seld1": f_by_default_1,
     "none": None,
     "accept": f_accept,
     "reject": f_reject,
